@@ -183,7 +183,7 @@ SPECS['C02'] = {
 }
 
 SPECS['C10'] = {
-    'functions': GLUE_FUNCS,
+    'functions': GLUE_FUNCS + ['SourceDataWrapper.make_chunked_generator', 'MultiFrameData.__next__'],
     'stubs': IO_STUBS, 'cuts': CUTS, 'assumptions': CH_ASSUME,
     'outside': ['float-valued output_chunk_size (float % 1 is outside engine A; integral floats are exercised by replays only)',
                 'input_chunk_size independence is obligation O3.1/O3.2 (C03) and is listed there',
@@ -321,6 +321,7 @@ SPECS['C09'] = {
     ] + _pair('c09', 'file_header', (600, 1800), 'sequence number 1..99999 (thorough 10**10-1), symbolic ASCII id len<=2, origin<2**30',
               ['FileHeaderSet._make_body_bytes' if False else 'EFLRSet._make_body_bytes', 'FileHeaderItem._make_attrs_bytes'])
       + _pair('c09', 'file_header_reject', (120, 300), 'sequence number over all integers; id length 0..300', ['FileHeaderItem.__init__'], replay=R + 'misc:replay_file_header_reject', validate=R + 'misc:replay_file_header_reject')
+      + _pair('c09', 'empty_set', (300, 300), 'every item class x named/unnamed x every even capacity 12..16376: a set without objects yields no segment', ['EFLRSet._make_body_bytes', 'LogicalRecordBytes.make_segments'], shards=(4, 4))
       + _pair('c09', 'registry', (300, 300), 'all 64 registry states over 2 classes x {None,A,B} x request x route (finite, exhaustive)',
               ['EFLRSetsDict.get_or_make_set', 'EFLRSetsDict.add_set', 'EFLRSetsDict.try_add_set'])
       + _pair('c09', 'origin_params', (120, 300), 'file-set number / RNG value < 2**30, supplied or not; clock; FILE-ID unset/equal/different',
@@ -374,7 +375,9 @@ _tiling = _pair('c11', 'tiling', (120, 300), 'n<=40 (thorough 10**6), chunk<=n+2
                 replay=D + 'replay_tiling', validate=D + 'replay_tiling')
 _fdata = _pair('c11', 'fdata_body', (300, 600), 'every source kind x 8 dtypes x both byte orders x scalar/width<=4096 x frame number<2**30',
                ['FrameData._make_body_bytes'], replay=D + 'replay_fdata_body', validate=D + 'replay_fdata_body', shards=(5, 5)) + [
-    dict(fn=H + 'c11.wit_fdata_bigendian_2d', kind='witness', timeout=(60, 60), validate=D + 'replay_fdata_body')]
+    dict(fn=H + 'c11.wit_fdata_bigendian_2d', kind='witness', timeout=(60, 60), validate=D + 'replay_fdata_body'),
+    dict(fn=H + 'c11.ob_fdata_number_edges', kind='universal', timeout=(300, 600), replay=D + 'replay_fdata_body',
+         bounds='frame numbers +-1 around 1, 127/128, 255/256, 16383/16384, 65535/65536, 2**30-1 x every source kind: enumeration', entry=['FrameData._make_body_bytes'])]
 _descr = _pair('c11', 'descriptors', (300, 600), 'every source kind x 8 dtypes x cast/no cast x width 0..2**20 x user dimension / element limit given or not, 1..2**20',
                ['ChannelItem.set_dimension_and_repr_code_from_data', 'ChannelItem._set_dimension_from_data', 'ChannelItem._set_repr_code_from_data',
                 'ChannelItem._compare_element_limit_vs_dimension', 'ChannelItem._run_checks_and_set_defaults', 'ChannelItem._set_cast_dtype'],
@@ -392,6 +395,8 @@ _taint = _pair('c11', 'taint', (120, 300), 'every source kind x 1..3 rows x chun
                replay=D + 'replay_taint', validate=D + 'replay_taint')
 _twofiles = _pair('c11', 'two_files_data', (300, 600), 'two logical files, inline data under equal / different dataset names, 1..4 rows each, a shared dict passed or not',
                   ['LogicalFile._make_multi_frame_data'], replay=D + 'replay_two_files_data', validate=D + 'replay_two_files_data')
+_gen2 = _pair('c11', 'generate_two_files', (300, 600), 'DLISFile.generate_logical_records over two logical files: 1..3 rows each, chunk 1..4, equal / different dataset names',
+              ['DLISFile.generate_logical_records', 'DLISFile.generator', 'LogicalFile._make_multi_frame_data'], replay=D + 'replay_two_files_data', validate=D + 'replay_two_files_data')
 _twofr = _pair('c11', 'two_frames', (300, 600), 'two frames, 1..4 rows each, chunk 1..5', ['MultiFrameData.__next__'],
                replay=D + 'replay_two_frames', validate=D + 'replay_two_frames')
 
@@ -505,7 +510,7 @@ SPECS['C18'] = {
     'stubs': NP_STUBS, 'cuts': CUTS, 'assumptions': CH_ASSUME,
     'outside': ['more than two frames / two logical files', 'F12 region: the same (set class, set name) in two logical files is one shared set object: known finding'],
     'selftests': NP_SELF,
-    'obligations': _isol + _twofr + _twofiles,
+    'obligations': _isol + _twofr + _twofiles + _gen2,
 }
 
 SPECS['C05'] = {
@@ -531,3 +536,26 @@ SPECS['C05'] = {
     + _find('C06', 'ob_dtime') + _find('C06', 'reach_dtime') + _find('C06', 'k3_dtime_ms') + _find('C04', 'k4_int_is_integer')
     + _find('C06', 'ob_text_content') + _find('C06', 'ob_ascii_len') + _find('C07', 'ob_identity'),
 }
+
+# C10 also owns the input-chunk independence obligations (defined with the data-path specs above)
+SPECS['C10']['obligations'] = SPECS['C10']['obligations'] + _tiling + _iteration
+SPECS['C10']['stubs'] = SPECS['C10']['stubs'] + NP_STUBS
+SPECS['C10']['selftests'] = SPECS['C10']['selftests'] + ['venv:vf.stubs.selftest:selftest_npstub']
+SPECS['C07']['obligations'] = SPECS['C07']['obligations'] + _gen2
+
+_wide = _pair('c13', 'wide_first_channel', (120, 300), 'first channel 2-D: rows 1..10**6 x width 2..4096, index type or not, user index_max or not',
+              ['FrameItem._setup_frame_params_from_data'])
+SPECS['C13']['obligations'] = SPECS['C13']['obligations'] + _wide
+_edges_txt = _pair('c01', 'text_field_edges', (300, 600), 'storage-set identifier (60) and header id (65): 55..67 letters + 0..3 trailing blanks + 0..1 leading blank: enumeration',
+                   ['get_ascii_bytes', 'StorageUnitLabel.represent_as_bytes', 'FileHeaderItem._make_attrs_bytes', 'FileHeaderItem.__init__'])
+SPECS['C01']['obligations'] = SPECS['C01']['obligations'] + _edges_txt
+SPECS['C12']['obligations'] = SPECS['C12']['obligations'] + _edges_txt
+SPECS['C09']['obligations'] = SPECS['C09']['obligations'] + _edges_txt
+_dsn = _pair('c11', 'dataset_names', (400, 900), 'three channels: names from {A,B} x explicit dataset names from {none,A,B,A__1} (finite, exhaustive)',
+             ['LogicalFile._get_unique_dataset_name', 'LogicalFile.add_channel'], shards=(8, 8))
+SPECS['C11']['obligations'] = SPECS['C11']['obligations'] + _dsn
+SPECS['C20']['obligations'] = SPECS['C20']['obligations'] + _dsn
+
+_rejorder = _pair('c14', 'rejected_order', (120, 120), 'a rejected add_zone between valid calls, named / unnamed set, set already in use', ['LogicalFile.add_zone', 'DLISFile.generator']) + [
+    dict(fn=H + 'c14.kf_rejected_order', kind='kf', timeout=(120, 120), replay=PLAIN, bounds='F21 region: the rejected call is the first use of its set')]
+SPECS['C20']['obligations'] = SPECS['C20']['obligations'] + _rejorder
